@@ -5,6 +5,6 @@ CONSTANTS
   Pres = {0}
   Depth <- EnvDepth
 INIT GInit
-NEXT GNext
+NEXT GNextSim
 INVARIANTS GEmit
 CHECK_DEADLOCK FALSE
